@@ -232,14 +232,14 @@ fn build(spec: &Spec) -> Internet {
                 let zi = first + i;
                 let name = n(&format!("z{}.t.", i + 1));
                 let s = servers.len();
-                servers.push(Server { ip: Ipv4Addr::new(11, 1, i as u8 + 1, 1), zones: vec![zi], lame: Lame::None });
+                servers.push(Server { ip: Ipv4Addr::new(11, 1 + (i / 250) as u8, (i % 250) as u8 + 1, 1), zones: vec![zi], lame: Lame::None });
                 zones.push(Zone {
                     name: name.clone(),
                     parent: Some(T),
                     servers: vec![s],
                     ns_names: vec![],
                     glue: true,
-                    records: vec![rec_a(&n(&format!("www.z{}.t.", i + 1)), Ipv4Addr::new(12, 20, i as u8 + 1, 80))],
+                    records: vec![rec_a(&n(&format!("www.z{}.t.", i + 1)), Ipv4Addr::new(12, 20 + (i / 250) as u8, (i % 250) as u8 + 1, 80))],
                 });
             }
             for i in 0..*len {
@@ -472,6 +472,8 @@ const ANSWER_DENY: [&[&str]; 3] = [&[], &["6.6.8.0/24"], &["0.0.0.0/0"]];
 const ANSWER_ALLOW: [&[&str]; 3] = [&[], &["6.6.8.1/32"], &["12.0.0.0/8", "11.0.0.0/8"]];
 /// the configuration every other family runs with
 const DEFAULT_FILTERS: [usize; 4] = [1, 0, 1, 0];
+/// (ns_cache_size, response_cache_size): what every other family uses, then the boundary values
+const CACHE_SIZES: [(usize, u64); 4] = [(64, 4096), (0, 0), (1, 1), (2, 2)];
 
 fn nets(v: &[&str]) -> Vec<ipnet::IpNet> {
     v.iter().map(|s| s.parse().unwrap()).collect()
@@ -657,7 +659,7 @@ impl Run {
     }
 }
 
-fn execute(inet: Arc<Internet>, limits: (u8, u8), case_rand: bool, filters: [usize; 4], queries: &[(Name, RecordType)]) -> Run {
+fn execute(inet: Arc<Internet>, limits: (u8, u8), case_rand: bool, filters: [usize; 4], caches: usize, queries: &[(Name, RecordType)]) -> Run {
     vsim::install_hook_clock_tokio();
     let rt = vsim::rt();
     let run = rt.block_on(async {
@@ -669,8 +671,8 @@ fn execute(inet: Arc<Internet>, limits: (u8, u8), case_rand: bool, filters: [usi
             deny_server: nets(SERVER_DENY[filters[0]]),
             allow_answers: nets(ANSWER_ALLOW[filters[3]]),
             deny_answers: nets(ANSWER_DENY[filters[2]]),
-            ns_cache_size: 64,
-            response_cache_size: 4096,
+            ns_cache_size: CACHE_SIZES[caches].0,
+            response_cache_size: CACHE_SIZES[caches].1,
             case_randomization: case_rand,
             ..RecursorOptions::default()
         };
@@ -703,8 +705,8 @@ fn execute(inet: Arc<Internet>, limits: (u8, u8), case_rand: bool, filters: [usi
     run
 }
 
-fn execute_caught(inet: Arc<Internet>, limits: (u8, u8), case_rand: bool, filters: [usize; 4], queries: &[(Name, RecordType)]) -> Run {
-    match vcore::catch(|| execute(inet, limits, case_rand, filters, queries)) {
+fn execute_caught(inet: Arc<Internet>, limits: (u8, u8), case_rand: bool, filters: [usize; 4], caches: usize, queries: &[(Name, RecordType)]) -> Run {
+    match vcore::catch(|| execute(inet, limits, case_rand, filters, caches, queries)) {
         Ok(r) => r,
         Err(p) => Run {
             steps: vec![Step {
@@ -733,10 +735,10 @@ fn exchange_bound(limits: (u8, u8), servers: usize) -> u64 {
 
 /// Clauses that hold for every run: completion, explicit exchange bound, filters, and that no
 /// address outside the simulated internet is contacted.
-fn judge_common(inet: &Internet, limits: (u8, u8), filters: &[usize; 4], run: &Run, l: &mut Local, wit: &dyn Fn() -> Value) {
+fn judge_common(inet: &Internet, limits: (u8, u8), filters: &[usize; 4], scene: &str, run: &Run, l: &mut Local, wit: &dyn Fn() -> Value) {
     for st in &run.steps {
         match &st.outcome {
-            Outcome::Hung => l.violation("no-termination", "a resolution did not complete within the virtual-time horizon", wit),
+            Outcome::Hung => l.violation(&format!("no-termination:{scene}"), "a resolution did not complete within the virtual-time horizon", wit),
             Outcome::Panicked(p) => {
                 let loc = p.rsplit(" @ ").next().unwrap_or("?");
                 l.violation(&format!("panic:{loc}"), &format!("the recursor panicked: {p}"), wit)
@@ -746,7 +748,7 @@ fn judge_common(inet: &Internet, limits: (u8, u8), filters: &[usize; 4], run: &R
         let bound = exchange_bound(limits, inet.servers.len());
         if st.log.len() as u64 > bound {
             l.violation(
-                "exchange-bound-exceeded",
+                &format!("exchange-bound-exceeded:{scene}"),
                 &format!("{} upstream exchanges for one resolution, explicit bound {bound}", st.log.len()),
                 wit,
             );
@@ -912,6 +914,8 @@ struct CaseDesc {
     mode: usize,
     /// indices into SERVER_DENY, SERVER_ALLOW, ANSWER_DENY, ANSWER_ALLOW
     filters: [usize; 4],
+    /// index into CACHE_SIZES (ns_cache_size, response_cache_size)
+    caches: usize,
 }
 
 impl CaseDesc {
@@ -927,6 +931,8 @@ impl CaseDesc {
             "mode": self.mode,
             "mode_name": MODES[self.mode],
             "filters": self.filters,
+            "cache_sizes": [CACHE_SIZES[self.caches].0, CACHE_SIZES[self.caches].1 as usize],
+            "caches": self.caches,
             "filters_text": {"deny_server": SERVER_DENY[self.filters[0]], "allow_server": SERVER_ALLOW[self.filters[1]], "deny_answers": ANSWER_DENY[self.filters[2]], "allow_answers": ANSWER_ALLOW[self.filters[3]]},
         })
     }
@@ -940,6 +946,7 @@ impl CaseDesc {
             case_rand: v["case_randomization"].as_bool().unwrap_or(false),
             warm: v["warm"].as_bool().unwrap_or(false),
             mode: v["mode"].as_u64().unwrap_or(0) as usize,
+            caches: v["caches"].as_u64().unwrap_or(0) as usize,
             filters: v["filters"].as_array().map(|a| [a[0].as_u64().unwrap() as usize, a[1].as_u64().unwrap() as usize, a[2].as_u64().unwrap() as usize, a[3].as_u64().unwrap() as usize]).unwrap_or(DEFAULT_FILTERS),
         }
     }
@@ -1003,7 +1010,7 @@ fn run_and_judge(desc: &CaseDesc, honest: Option<&Run>, l: &mut Local) -> Run {
     // supervising parent (vcore::supervise) reports the marked case as a termination violation
     vcore::mark_case(l.worker, || desc.to_json().to_string());
     let inet = Arc::new(desc.internet());
-    let run = execute_caught(inet.clone(), desc.limits, desc.case_rand, desc.filters, &desc.parsed_queries());
+    let run = execute_caught(inet.clone(), desc.limits, desc.case_rand, desc.filters, desc.caches, &desc.parsed_queries());
     let wit = || {
         let mut j = desc.to_json();
         j["observed"] = run.to_json();
@@ -1013,7 +1020,33 @@ fn run_and_judge(desc: &CaseDesc, honest: Option<&Run>, l: &mut Local) -> Run {
         eprintln!("{}", serde_json::to_string_pretty(&wit()).unwrap());
     }
     let main_idx = if desc.warm && run.steps.len() > 1 { 1 } else { 0 };
-    judge_common(&inet, desc.limits, &desc.filters, &run, l, &wit);
+    // scene of the termination clauses: cache-size class and world shape
+    let scene = format!(
+        "{}:{}",
+        if desc.caches == 0 { "default-caches" } else { "tiny-caches" },
+        match &desc.spec.family {
+            Family::Base => "base-graph",
+            Family::CnameChain { .. } => "cname-chain",
+            Family::CnameLoop { .. } => "cname-loop",
+            Family::NsChain { .. } => "ns-for-ns-chain",
+            Family::Cycle { names, .. } if *names >= 2 => "branching-glueless-cycle",
+            Family::Cycle { .. } => "glueless-cycle",
+            Family::Deep { .. } => "deep-delegation",
+        }
+    );
+    judge_common(&inet, desc.limits, &desc.filters, &scene, &run, l, &wit);
+    // exact bound on a single delegation path (every label a zone cut served by the same hosts):
+    // one resolution makes at most ns_recursion_limit zone-cut lookups
+    if matches!(desc.spec.family, Family::Deep { .. }) {
+        let probes: BTreeSet<&str> = run.steps[0].log.iter().filter(|e| e.qtype == "NS").map(|e| e.qname.as_str()).collect();
+        if probes.len() > desc.limits.1 as usize {
+            l.violation(
+                "depth-exceeds-configured-limit:zone-cut-lookups",
+                &format!("{} distinct zone-cut (NS) lookups on one delegation path with ns_recursion_limit = {}", probes.len(), desc.limits.1),
+                &wit,
+            );
+        }
+    }
     let skip_provenance = matches!(desc.spec.family, Family::Deep { .. });
     if !skip_provenance {
         // a warm-up is a first-time resolution like the main query: same phase label
@@ -1296,7 +1329,7 @@ fn termination_families(thorough: bool) -> Vec<(String, Vec<(usize, Spec, (Strin
         out.push((format!("cname-loop:cross={cross}"), v));
     }
     let mut v = vec![];
-    for len in 1..=30 {
+    for len in (1..=30).chain([126, 127, 128, 252, 253, 258]) {
         let mut s = Spec::base();
         s.family = Family::NsChain { n: len };
         v.push((len, s, ("www.z1.t.".to_string(), "A".to_string())));
@@ -1312,7 +1345,7 @@ fn termination_families(thorough: bool) -> Vec<(String, Vec<(usize, Spec, (Strin
         out.push((format!("glueless-cycle:ns-names={names}"), v));
     }
     let mut v = vec![];
-    for depth in 1..=40 {
+    for depth in (1..=40).chain([100, 120]) {
         let mut s = Spec::base();
         s.family = Family::Deep { n: depth };
         let q = format!("{}l.t.", "x.".repeat(depth));
@@ -1346,7 +1379,7 @@ fn main() {
                 let mut h = desc.clone();
                 h.hostile = None;
                 h.inj.clear();
-                execute_caught(Arc::new(h.internet()), h.limits, h.case_rand, h.filters, &h.parsed_queries())
+                execute_caught(Arc::new(h.internet()), h.limits, h.case_rand, h.filters, h.caches, &h.parsed_queries())
             });
             run_and_judge(&desc, honest.as_ref(), l);
         });
@@ -1361,7 +1394,7 @@ fn main() {
          x main query (cold, and - when the hostile zone is the one holding the queried name - also after a warm-up query for another name of that zone, i.e. with every ancestor's pool already in the name-server cache), followed on the same recursor by 3-4 follow-up queries for names outside the hostile subtree, by a SECOND-STEP query for everything the first resolution touched internally (every (name, type in A/AAAA/NS) it asked upstream and the address of every NS host name of the zones it asked: glueless NS names, zone cuts, alias targets), and by the first query again (warm answer must be a subset of the cold one); thorough adds all unordered pairs of injections on the plain graph and on every graph that differs from it in at most one zone's NS style; \
          (F) every filter configuration the builder accepts out of deny_server {none, 6.6.7.0/24, 0.0.0.0/0} x allow_server {none, 6.6.7.1/32, 11.0.0.0/8} x deny_answers {none, 6.6.8.0/24, 0.0.0.0/0} x allow_answers {none, 6.6.8.1/32, 12/8+11/8} (quick: one filter at its default; thorough: the full product, 49) x hostile zone {ROOT, t., l.t.} x filter-relevant injections x 5 queries (each asked twice), judged against the documented deny/allow table; \
          (C) lame kinds {REFUSED, upward referral, self referral, empty NOERROR, timeout} x zone x {1 server, 2 servers both lame, 2 servers first lame}; \
-         (D) CNAME chains 1..70 (in-zone / cross-zone, server chases in-zone or not), CNAME loops 1..3, NS-for-NS chains 1..30, glueless cycles 1..8 (1 NS name) / 1..6 (2 NS names), delegation depth 1..40, each x limits; \
+         (D) CNAME chains 1..70 (in-zone / cross-zone, server chases in-zone or not), CNAME loops 1..3, NS-for-NS chains 1..30, glueless cycles 1..8 (1 NS name) / 1..6 (2 NS names), delegation depth 1..40/100/120, NS-for-NS chains also of 126-128 and 252-258 zones, each x (recursion_limit, ns_recursion_limit) in {0,1,2,4,8,24,254,255} equal and crossed (thorough: more), and x (ns_cache_size, response_cache_size) in {(0,0),(1,1),(2,2)}; exact bound on a single delegation path: at most ns_recursion_limit zone-cut lookups; a panic in the recursor is `panic:<loc>`; \
          (E) stub CachingClient over a hostile/odd upstream: shapes {CNAME chain, SRV-target chain, plus foreign CNAME/address records, reverse record order, alias owner also has an address, duplicated CNAMEs, chain leaving the queried domain at every hop} x chains 1..20 / loops 1..3 x 1-2 hops per response x preserve_intermediates on/off x TTL {300, 0}, the name looked up twice on the same client. \
          Oracle: completes; upstream exchanges <= 64*(recursion_limit+ns_recursion_limit+64)*servers and constant in n for every n beyond limit+2; no exchange with an attacker/denied/unknown address; no denied address returned; \
          every returned record (incl. SOA/authorities of negative results) is published data or lies inside the hostile zone; follow-ups equal the attacker-free run; stub <= 8 upstream queries. \
@@ -1379,13 +1412,13 @@ fn main() {
     for s in &specs {
         for lim in limits_all {
             for q in &queries {
-                honest_descs.push(CaseDesc { spec: s.clone(), limits: lim, hostile: None, inj: vec![], queries: vec![(q.0.to_string(), q.1.to_string())], case_rand: false, warm: false, mode: 0, filters: DEFAULT_FILTERS });
+                honest_descs.push(CaseDesc { spec: s.clone(), limits: lim, hostile: None, inj: vec![], queries: vec![(q.0.to_string(), q.1.to_string())], case_rand: false, warm: false, mode: 0, filters: DEFAULT_FILTERS, caches: 0 });
             }
         }
     }
     for s in lame_specs() {
         for q in &queries {
-            honest_descs.push(CaseDesc { spec: s.clone(), limits: (8, 8), hostile: None, inj: vec![], queries: vec![(q.0.to_string(), q.1.to_string())], case_rand: false, warm: false, mode: 0, filters: DEFAULT_FILTERS });
+            honest_descs.push(CaseDesc { spec: s.clone(), limits: (8, 8), hostile: None, inj: vec![], queries: vec![(q.0.to_string(), q.1.to_string())], case_rand: false, warm: false, mode: 0, filters: DEFAULT_FILTERS, caches: 0 });
         }
     }
     ctx.set("graphs", json!(specs.len()));
@@ -1395,7 +1428,7 @@ fn main() {
         let run = run_and_judge(d, None, l);
         let order_dependent = d.spec.lame.map(|(_, all, _)| !all).unwrap_or(false);
         if i % 8 == 0 && !order_dependent {
-            let again = execute_caught(Arc::new(d.internet()), d.limits, d.case_rand, d.filters, &d.parsed_queries());
+            let again = execute_caught(Arc::new(d.internet()), d.limits, d.case_rand, d.filters, d.caches, &d.parsed_queries());
             let inet = d.internet();
             if again.digest(&inet) != run.digest(&inet) {
                 ctx.machinery_failure(&format!("nondeterminism: {} gave two different observations", d.to_json()));
@@ -1412,8 +1445,8 @@ fn main() {
 
     // the plain graph must resolve: otherwise everything below is vacuous
     {
-        let d = CaseDesc { spec: Spec::base(), limits: (8, 8), hostile: None, inj: vec![], queries: vec![("www.l.t.".into(), "A".into()), ("alias.l.t.".into(), "A".into())], case_rand: false, warm: false, mode: 0, filters: DEFAULT_FILTERS };
-        let run = execute_caught(Arc::new(d.internet()), d.limits, d.case_rand, d.filters, &d.parsed_queries());
+        let d = CaseDesc { spec: Spec::base(), limits: (8, 8), hostile: None, inj: vec![], queries: vec![("www.l.t.".into(), "A".into()), ("alias.l.t.".into(), "A".into())], case_rand: false, warm: false, mode: 0, filters: DEFAULT_FILTERS, caches: 0 };
+        let run = execute_caught(Arc::new(d.internet()), d.limits, d.case_rand, d.filters, d.caches, &d.parsed_queries());
         let ok = run.steps.iter().all(|s| matches!(&s.outcome, Outcome::Ok { answers, .. } if answers.iter().any(|r| r.record_type() == RecordType::A)));
         if !ok {
             ctx.machinery_failure(&format!("vacuous: the plain graph does not resolve: {}", run.to_json()));
@@ -1426,7 +1459,7 @@ fn main() {
         let mut cases = vec![];
         for s in specs.iter().filter(|s| s.style.iter().sum::<usize>() <= 1) {
             for q in &queries {
-                cases.push(CaseDesc { spec: s.clone(), limits: (8, 8), hostile: None, inj: vec![], queries: vec![(q.0.to_string(), q.1.to_string())], case_rand: true, warm: false, mode: 0, filters: DEFAULT_FILTERS });
+                cases.push(CaseDesc { spec: s.clone(), limits: (8, 8), hostile: None, inj: vec![], queries: vec![(q.0.to_string(), q.1.to_string())], case_rand: true, warm: false, mode: 0, filters: DEFAULT_FILTERS, caches: 0 });
             }
         }
         ctx.set("case_randomization_cases", json!(cases.len()));
@@ -1436,7 +1469,7 @@ fn main() {
             let mut plain = d.clone();
             plain.case_rand = false;
             let inet = d.internet();
-            let reference = execute_caught(Arc::new(plain.internet()), plain.limits, false, plain.filters, &plain.parsed_queries());
+            let reference = execute_caught(Arc::new(plain.internet()), plain.limits, false, plain.filters, plain.caches, &plain.parsed_queries());
             if reference.digest(&inet) != run.digest(&inet) {
                 ctx.machinery_failure(&format!("0x20 leak: {} differs from the run without case randomisation", d.to_json()));
             }
@@ -1461,9 +1494,9 @@ fn main() {
         }
         l.eval();
         let q = &queries[qi];
-        let d = CaseDesc { spec: s.clone(), limits: inj_limits, hostile: None, inj: vec![], queries: vec![(q.0.to_string(), q.1.to_string())], case_rand: false, warm: false, mode: 0, filters: DEFAULT_FILTERS };
+        let d = CaseDesc { spec: s.clone(), limits: inj_limits, hostile: None, inj: vec![], queries: vec![(q.0.to_string(), q.1.to_string())], case_rand: false, warm: false, mode: 0, filters: DEFAULT_FILTERS, caches: 0 };
         let inet = d.internet();
-        let run = execute_caught(Arc::new(d.internet()), d.limits, d.case_rand, d.filters, &d.parsed_queries());
+        let run = execute_caught(Arc::new(d.internet()), d.limits, d.case_rand, d.filters, d.caches, &d.parsed_queries());
         let mut set: BTreeSet<(String, String)> = BTreeSet::new();
         for e in &run.steps[0].log {
             if ["A", "AAAA", "NS"].contains(&e.qtype.as_str()) {
@@ -1509,7 +1542,7 @@ fn main() {
                     }
                     // and the main query once more: what the first resolution left in the caches
                     qs.push((q.0.to_string(), q.1.to_string()));
-                    refs.push((CaseDesc { spec: s.clone(), limits: inj_limits, hostile: None, inj: vec![], queries: qs, case_rand: false, warm, mode: 0, filters: DEFAULT_FILTERS }, hz));
+                    refs.push((CaseDesc { spec: s.clone(), limits: inj_limits, hostile: None, inj: vec![], queries: qs, case_rand: false, warm, mode: 0, filters: DEFAULT_FILTERS, caches: 0 }, hz));
                 }
             }
         }
@@ -1518,7 +1551,7 @@ fn main() {
     ctx.par_run(refs.len() as u64, 8, |i, l| {
         let (d, _) = &refs[i as usize];
         l.eval();
-        let run = execute_caught(Arc::new(d.internet()), d.limits, d.case_rand, d.filters, &d.parsed_queries());
+        let run = execute_caught(Arc::new(d.internet()), d.limits, d.case_rand, d.filters, d.caches, &d.parsed_queries());
         *ref_runs[i as usize].lock().unwrap() = Some(run);
     });
     let ref_runs: Vec<Run> = ref_runs.into_iter().map(|m| m.into_inner().unwrap().unwrap()).collect();
@@ -1597,7 +1630,7 @@ fn main() {
         }
         let run = run_and_judge(&d, Some(&ref_runs[*ri]), l);
         if i % 64 == 0 {
-            let again = execute_caught(Arc::new(d.internet()), d.limits, d.case_rand, d.filters, &d.parsed_queries());
+            let again = execute_caught(Arc::new(d.internet()), d.limits, d.case_rand, d.filters, d.caches, &d.parsed_queries());
             let inet = d.internet();
             // once an attacker address sits in a pool next to a genuine one, which of the two is
             // asked depends on hickory's random initial SRTT: such runs are already violations
@@ -1634,6 +1667,7 @@ fn main() {
                                     warm: false,
                                     mode: 0,
                                     filters: f,
+                                    caches: 0,
                                 });
                             }
                         }
@@ -1659,22 +1693,66 @@ fn main() {
 
     // ---------------- (D) termination families
     let fams = termination_families(thorough);
+    // the two recursion-limit knobs at their boundary values: 0, 1, 2, small, default (24), 254
+    // and 255 (= u8::MAX: the depth counters are u8), equal and crossed
+    let mut term_limits: Vec<(u8, u8)> = vec![(0, 0), (1, 1), (2, 2), (4, 4), (8, 8), (24, 24), (254, 254), (255, 255), (255, 4), (4, 255)];
+    if thorough {
+        term_limits.extend([(0, 24), (24, 0), (1, 255), (255, 1), (254, 255), (255, 254), (3, 3), (5, 5), (16, 16), (128, 128)]);
+    }
     let mut tjobs: Vec<(usize, usize, (u8, u8))> = vec![];
     for (fi, (_, v)) in fams.iter().enumerate() {
         for (vi, _) in v.iter().enumerate() {
-            for lim in limits_all {
+            for lim in term_limits.iter().copied() {
                 tjobs.push((fi, vi, lim));
             }
         }
     }
+    // the cache-size knobs at their boundary values x the non-terminating shapes and the plain
+    // graph (a cache that holds nothing must not turn bounded work into unbounded work)
+    {
+        let mut cjobs: Vec<CaseDesc> = vec![];
+        for caches in 1..CACHE_SIZES.len() {
+            for lim in [(4u8, 4u8), (8, 8), (32, 32), (24, 24), (255, 255)] {
+                for (_, v) in fams.iter() {
+                    for (nn, spec, q) in v.iter() {
+                        // a cycle with two NS names per zone branches at every level: without a
+                        // cache the work is ~2^(limit/2) (open finding), so its cost is kept finite
+                        // here: limits <= 8, plus one case at 32 where the explicit bound is
+                        // exceeded deterministically (98,302 exchanges)
+                        let branching = matches!(spec.family, Family::Cycle { names, .. } if names >= 2);
+                        if branching && lim.1 > 8 && !(lim == (32, 32) && caches == 1 && *nn == 2) {
+                            continue;
+                        }
+                        if lim == (32, 32) && !branching {
+                            continue;
+                        }
+                        if [1usize, 2, 3, 9, 30].contains(nn) {
+                            cjobs.push(CaseDesc { spec: spec.clone(), limits: lim, hostile: None, inj: vec![], queries: vec![q.clone(), q.clone()], case_rand: false, warm: false, mode: 0, filters: DEFAULT_FILTERS, caches });
+                        }
+                    }
+                }
+                for q in queries.iter().filter(|_| lim != (32, 32)) {
+                    cjobs.push(CaseDesc { spec: Spec::base(), limits: lim, hostile: None, inj: vec![], queries: vec![(q.0.to_string(), q.1.to_string()), (q.0.to_string(), q.1.to_string())], case_rand: false, warm: false, mode: 0, filters: DEFAULT_FILTERS, caches });
+                }
+            }
+        }
+        ctx.set("cache_size_cases", json!(cjobs.len()));
+        ctx.par_run(cjobs.len() as u64, 4, |i, l| {
+            run_and_judge(&cjobs[i as usize], None, l);
+            l.outcome("cache-size-boundary-case");
+        });
+    }
     let counts: Mutex<BTreeMap<(usize, (u8, u8)), BTreeMap<usize, (usize, String)>>> = Mutex::new(BTreeMap::new());
+    let depths: Mutex<BTreeMap<(usize, (u8, u8)), BTreeMap<usize, usize>>> = Mutex::new(BTreeMap::new());
     ctx.set("termination_cases", json!(tjobs.len()));
     ctx.par_run(tjobs.len() as u64, 2, |i, l| {
         let (fi, vi, lim) = tjobs[i as usize];
         let (nn, spec, q) = &fams[fi].1[vi];
-        let d = CaseDesc { spec: spec.clone(), limits: lim, hostile: None, inj: vec![], queries: vec![q.clone()], case_rand: false, warm: false, mode: 0, filters: DEFAULT_FILTERS };
+        let d = CaseDesc { spec: spec.clone(), limits: lim, hostile: None, inj: vec![], queries: vec![q.clone()], case_rand: false, warm: false, mode: 0, filters: DEFAULT_FILTERS, caches: 0 };
         let run = run_and_judge(&d, None, l);
         l.outcome(&format!("termination:{}:{}", fams[fi].0.split(':').next().unwrap(), run.steps[0].outcome.class()));
+        let probes: BTreeSet<&str> = run.steps[0].log.iter().filter(|e| e.qtype == "NS").map(|e| e.qname.as_str()).collect();
+        depths.lock().unwrap().entry((fi, lim)).or_default().insert(*nn, probes.len());
         counts.lock().unwrap().entry((fi, lim)).or_default().insert(*nn, (run.steps[0].log.len(), run.steps[0].outcome.class()));
     });
     let counts = counts.into_inner().unwrap();
@@ -1684,7 +1762,8 @@ fn main() {
             let name = &fams[*fi].0;
             let limit = if name.starts_with("cname") { lim.0 } else { lim.1 } as usize;
             let max = by_n.values().map(|v| v.0).max().unwrap_or(0);
-            maxima.insert(format!("{name} limits={lim:?}"), json!({"max_exchanges": max, "bound": exchange_bound(*lim, 6), "by_n": by_n.iter().map(|(n, v)| format!("{n}:{}:{}", v.0, v.1)).collect::<Vec<_>>().join(" ")}));
+            let dmax = depths.lock().unwrap().get(&(*fi, *lim)).map(|m| m.values().copied().max().unwrap_or(0)).unwrap_or(0);
+            maxima.insert(format!("{name} limits={lim:?}"), json!({"max_distinct_zone_cut_probes": dmax, "max_exchanges": max, "bound": exchange_bound(*lim, 6), "by_n": by_n.iter().map(|(n, v)| format!("{n}:{}:{}", v.0, v.1)).collect::<Vec<_>>().join(" ")}));
             // plateau: beyond limit+2 the number of exchanges does not depend on n any more
             let beyond: Vec<(&usize, &(usize, String))> = by_n.iter().filter(|(n, _)| **n >= limit + 2).collect();
             if let Some((n0, first)) = beyond.first() {
@@ -1754,7 +1833,7 @@ fn main() {
         ctx.set("stub_measured", Value::Object(stub));
     });
 
-    for class in ["second-step-query-for-a-touched-name", "warm-answer-subset-of-cold", "filter-configuration-case", "hostile-root-case", "mode:append+aa-flipped", "mode:reown-genuine-records-to-victim", "warm-cache-main-query", "hostile-server-contacted", "followup-equals-honest", "plateau-checked", "selftest:replayed-identically", "stub:error", "stub:answer", "main:answer", "main:nxdomain", "main:nodata"] {
+    for class in ["cache-size-boundary-case", "second-step-query-for-a-touched-name", "warm-answer-subset-of-cold", "filter-configuration-case", "hostile-root-case", "mode:append+aa-flipped", "mode:reown-genuine-records-to-victim", "warm-cache-main-query", "hostile-server-contacted", "followup-equals-honest", "plateau-checked", "selftest:replayed-identically", "stub:error", "stub:answer", "main:answer", "main:nxdomain", "main:nodata"] {
         if ctx.outcome_count(class) == 0 {
             ctx.machinery_failure(&format!("vacuous run: outcome class '{class}' was never exercised"));
         }
